@@ -811,10 +811,19 @@ class SymSqrt:
     def _c(s, o):
         return toz(o, True)
 
-    def __lt__(s, o): c = s._c(o); return mkbool(z3.And(c > 0, s.rad < c * c))
-    def __le__(s, o): c = s._c(o); return mkbool(z3.And(c >= 0, s.rad <= c * c))
-    def __gt__(s, o): c = s._c(o); return mkbool(z3.Or(c < 0, s.rad > c * c))
-    def __ge__(s, o): c = s._c(o); return mkbool(z3.Or(c <= 0, s.rad >= c * c))
+    # two lazy square roots compare like their (non-negative) radicands
+    def __lt__(s, o):
+        if isinstance(o, SymSqrt): return mkbool(s.rad < o.rad)
+        c = s._c(o); return mkbool(z3.And(c > 0, s.rad < c * c))
+    def __le__(s, o):
+        if isinstance(o, SymSqrt): return mkbool(s.rad <= o.rad)
+        c = s._c(o); return mkbool(z3.And(c >= 0, s.rad <= c * c))
+    def __gt__(s, o):
+        if isinstance(o, SymSqrt): return mkbool(s.rad > o.rad)
+        c = s._c(o); return mkbool(z3.Or(c < 0, s.rad > c * c))
+    def __ge__(s, o):
+        if isinstance(o, SymSqrt): return mkbool(s.rad >= o.rad)
+        c = s._c(o); return mkbool(z3.Or(c <= 0, s.rad >= c * c))
 
     def __deepcopy__(s, memo):
         return s
